@@ -450,7 +450,7 @@ pub fn run(ctx: &Ctx) -> (Report, Meta) {
         };
         let mut zs: Vec<(f64, f64)> = vec![(-0.5, 0.0), (-0.9, 0.6), (-0.9, -0.6), (0.125, 0.25), (0.125, -0.25), (-50.0, 0.0), (0.0, 2.0), (0.0, -2.0), (0.5, 0.0), (-3.0, 4.0), (-1e3, 0.0), (-8.0, 1.0), (1.0, 1.0), (-0.01, 0.0)];
         let mut rng = Rng::derive(ctx.seed, 22, 0);
-        for _ in 0..ctx.size(100, 20_000) {
+        for _ in 0..ctx.size(400, 20_000) {
             zs.push((-rng.logu(1e-2, 1e2) * if rng.chance(0.85) { 1.0 } else { -0.02 }, rng.range(-5.0, 5.0)));
         }
         for (zi_, &(zr, zi)) in zs.iter().enumerate() {
